@@ -23,6 +23,11 @@ class Executor(Exec):
                 raise Unsupported("star args")
             plain = [a for a in e.args if not isinstance(a, ast.Starred)]
             return self.evs(plain, st, lambda vals, st2: self.opaque_call(fname, st2, k, vals, {}))
+        if (isinstance(e.func, ast.Name) and e.func.id in ("set", "frozenset") and len(e.args) == 1 and not e.keywords
+                and isinstance(e.args[0], (ast.ListComp, ast.GeneratorExp, ast.SetComp))
+                and len(e.args[0].generators) == 1 and isinstance(e.args[0].generators[0].target, ast.Name)
+                and e.func.id not in st.env):
+            return self.set_builder(e.args[0], e.func.id == "set", st, k)
         def got_f(f, st2):
             def got_args(vals, st3):
                 args = vals[:len(e.args)]
@@ -30,6 +35,41 @@ class Executor(Exec):
                 return self.apply(f, args, kw, st3, k, e)
             return self.evs(list(e.args) + [kwd.value for kwd in e.keywords], st2, got_args)
         return self.ev(e.func, st, got_f)
+
+    def set_builder(self, comp, mutable, st, k):
+        """set(f(x) for x in src if c(x))  as  { y | exists x in src: c(x) and y == f(x) }  (no index maps)."""
+        g = comp.generators[0]
+        def got(it, st2):
+            if isinstance(it, SOpaqueObj):
+                return k(SOpaqueObj("set()"), st2)
+            try:
+                src = self.to_setv(it, st2)
+            except Unsupported:
+                st2, sq = self.iter_seq(it, st2)
+                src = self.to_setv(sq, st2)
+            from vf.pyvc.spec import PureEval
+            xs = S.sort_of(src.elem)
+            x = S.fresh("x!sb", xs)
+            pe = PureEval(self, st2, dict(st2.env, **{g.target.id: S.wrap(src.elem, x)}), bound=(x,))
+            cond = z3.And(src.mem[x], *[ops.truth(st2, pe.ev(c)) for c in g.ifs])
+            body = pe.ev(comp.elt)
+            if isinstance(body, SRef): raise Unsupported("set of mutable objects")
+            bt = term_of(body)
+            y = z3.Const("y!sb", bt.sort())
+            mem = z3.Lambda([y], z3.Exists([x], z3.And(cond, y == bt)))
+            def fin(st3):
+                sv = SSetV(body.ty, mem)
+                if not mutable: return k(sv, st3)
+                r = new_ref()
+                return k(SRef(("set", body.ty), r), st3.put(r, SetCell(body.ty, mem)))
+            # an element expression that is undefined for some selected element raises
+            def go(defs, st3):
+                if not defs: return fin(st3)
+                exc, c = defs[0]
+                allc = z3.ForAll([x], z3.Implies(cond, c))
+                return self.branch(allc, st3, lambda s: go(defs[1:], s), lambda s: self.raise_(exc, s))
+            return go(list(pe.defs), st2)
+        return self.ev(g.iter, st, got)
 
     def opaque_call(self, name, st, k, args=(), kw=None):
         """A call the model does not look into: fresh result of the declared type, ghost bookkeeping
@@ -191,7 +231,7 @@ class Executor(Exec):
             if name == "tuple": return k(sq, st)
             if isinstance(sq, EmptySeq): raise Unsupported("list() of unknown element type")
             r = new_ref()
-            return k(SRef(("list", sq.elem), r), st.put(r, ListCell(sq.elem, sq.n, sq.arr)))
+            return k(SRef(("list", sq.elem), r), st.put(r, ListCell(sq.elem, sq.n, sq.arr, getattr(sq, "setview", None))))
         if name == "dict":
             if not args: return k(SClosure("emptydict", "{}"), st)
             c = st.cell(args[0].ref)
@@ -258,13 +298,15 @@ class Executor(Exec):
 
     def to_setv(self, v, st) -> SSetV:
         if isinstance(v, SSetV): return v
+        if isinstance(v, SSeq) and getattr(v, "setview", None) is not None:
+            return SSetV(v.elem, v.setview)
         if isinstance(v, SSeq):
             x = z3.Const("x!ts", S.sort_of(v.elem)); i = z3.Int("i!ts")
             return SSetV(v.elem, z3.Lambda([x], z3.Exists([i], z3.And(i >= 0, i < v.n, v.arr[i] == x))))
         if isinstance(v, SRef):
             c = st.cell(v.ref)
             if isinstance(c, SetCell): return SSetV(c.elem, c.mem)
-            if isinstance(c, ListCell): return self.to_setv(SSeq(c.elem, c.n, c.arr), st)
+            if isinstance(c, ListCell): return self.to_setv(SSeq(c.elem, c.n, c.arr, setview=c.setview), st)
             if isinstance(c, DictCell): return SSetV(c.kty, c.dom)
         if isinstance(v, SDictView):
             c = st.cell(v.ref)
